@@ -112,6 +112,15 @@ CONTROLS = [
      "        num_threads=num_threads,\n        reset_ghost_zone=True,\n    )\n\n    def diffusion_timestep_euler_forward_pyst_kernel_2d(", ["C20", "C13", "C16"]),
     ("flow-forces-inlines-lag-grid-evaluation", IBFI, "        self.compute_interaction_on_lag_grid()\n        self.forcing_grid.transfer_forcing_from_grid_to_body(",
      "        self.forcing_grid.compute_lag_grid_position_field()\n        self.forcing_grid.compute_lag_grid_velocity_field()\n        self.compute_interaction_force_on_lag_grid(\n            eul_grid_velocity_field=self.eul_grid_velocity_field,\n            lag_grid_position_field=self.forcing_grid.position_field,\n            lag_grid_velocity_field=self.forcing_grid.velocity_field,\n        )\n        self.forcing_grid.transfer_forcing_from_grid_to_body(", ["C08", "C09", "C10", "C18"]),
+    ("cfl-measure-np-abs", "sopht/simulator/flow/passive_transport_flow_simulators.py", "np.sum(np.fabs(velocity_field), axis=0)", "np.sum(np.abs(velocity_field), axis=0)", ["C16"]),
+    ("ssprk3-weights-as-fractions", E3 + "vorticity_stretching_timestep_3d.py", "            field_1_prefac=0.75,\n            field_2_prefac=0.25,", "            field_1_prefac=(3.0 / 4.0),\n            field_2_prefac=(1.0 / 4.0),", ["C20", "C13"]),
+    ("boundary-setter-explicit-zero-start", E2 + "elementwise_ops_2d.py", "set_fixed_val_kernel_2d(field=field[:width, :], fixed_val=fixed_val)", "set_fixed_val_kernel_2d(field=field[0:width, :], fixed_val=fixed_val)", ["C13", "C15"]),
+    ("brinkmann-commuted-product", E2 + "brinkmann_penalise_2d.py", "            field[0, 0] + penalty_factor * char_field[0, 0] * penalty_field[0, 0]\n        ) / (1 + penalty_factor * char_field[0, 0])",
+     "            penalty_field[0, 0] * char_field[0, 0] * penalty_factor + field[0, 0]\n        ) / (char_field[0, 0] * penalty_factor + 1)", ["C19", "C13"]),
+    ("fastdiag-2d-corner-order", P2 + "FastDiagPoissonSolver2D.py", "            poisson_matrix_x[0, 0] = inv_dx2\n            poisson_matrix_x[-1, -1] = inv_dx2\n            poisson_matrix_y[0, 0] = inv_dx2\n            poisson_matrix_y[-1, -1] = inv_dx2",
+     "            poisson_matrix_y[-1, -1] = inv_dx2\n            poisson_matrix_y[0, 0] = inv_dx2\n            poisson_matrix_x[-1, -1] = inv_dx2\n            poisson_matrix_x[0, 0] = inv_dx2", ["C11"]),
+    ("rigid-body-cross-flipped-with-sign", RIG, "        self.velocity_field[...] = self.rigid_body.velocity_collection + _batch_cross(\n            global_frame_omega * np.ones(self.num_lag_nodes),\n            self.global_frame_relative_position_field,\n        )",
+     "        self.velocity_field[...] = self.rigid_body.velocity_collection - _batch_cross(\n            self.global_frame_relative_position_field,\n            global_frame_omega * np.ones(self.num_lag_nodes),\n        )", ["C09"]),
 ]
 
 
